@@ -50,7 +50,7 @@ def Core.toks (value : Toks) : Core → Toks
     c.toks value ++ tq sp "." ++ [⟨.plain name.name, name.sp⟩] ++ tq sp "(" ++ argToks sp args ++ tq sp ")"
   | .await c sp => c.toks value ++ tq sp ". await"
   | .named c sp name => c.toks value ++ tq sp "." ++ [⟨.plain name.name, name.sp⟩]
-  | .unnamed c sp i => c.toks value ++ tq sp "." ++ tq cs (toString i)
+  | .unnamed c sp isp i => c.toks value ++ tq sp "." ++ tq isp (toString i)   -- since /repo 04cedd8 the index literal carries the operation's span (it was `syn::Index::from(n)`: call site)
   | .index c sp e => c.toks value ++ tq sp "[" ++ e.toks ++ tq sp "]"
 
 def VExpr.toks (value : Toks) (v : VExpr) : Toks := preToks v.pre ++ v.core.toks value
